@@ -188,13 +188,51 @@ def main():
             if s0 is not None and np.abs(s1 - s0).max() > 1e-6 * (1 + np.abs(s0).max()):
                 res.fail(f"von Mises not invariant sim={simkind} transform={tk}", f"max difference {np.abs(s1 - s0).max():.2e}", ident)
 
+    # ---------------- 2D problems moved out of the plane z = 0 (a translation of the whole problem) ----------------
+    # the library either refuses such a mesh (assertion on the dimensions: outside the domain of the property) or must return the same solution
+    for et in (["TRI3", "QUAD4"] if not thorough else ["TRI3", "TRI6", "QUAD4", "QUAD8"]):
+        for simk in ("elastic", "thermal"):
+            sols_z = []
+            identz = dict(elemType=et, sim=simk, move="translation along z by 0.75")
+            try:
+                for dz in (0.0, 0.75):
+                    mz = build_mesh(et, 2)
+                    if dz:
+                        mz.Translate(0.0, 0.0, dz)
+                    cl = mz.Nodes_Conditions(lambda x, y, z: x == 0)
+                    fc = mz.Nodes_Conditions(lambda x, y, z: x == 2.0)
+                    if simk == "elastic":
+                        sz = Simulations.Elastic(mz, Models.Elastic.Isotropic(2, E=10.0, v=0.3, planeStress=True, thickness=0.5))
+                        sz.add_dirichlet(cl, [0.0, 0.0], ["x", "y"])
+                        sz.add_surfLoad(fc, [0.25, 0.5], ["x", "y"])
+                    else:
+                        sz = Simulations.Thermal(mz, Models.Thermal(2.0, 1.0, thickness=0.5))
+                        sz.add_dirichlet(cl, [1.0], ["t"])
+                        sz.add_surfLoad(fc, [0.5], ["t"])
+                    sols_z.append(np.asarray(sz.Solve()).copy())
+            except AssertionError:
+                res.count("out-of-plane:refused")
+                continue
+            except Exception as ex:  # noqa: BLE001
+                res.fail(f"out-of-plane translation raises sim={simk}", f"{type(ex).__name__}: {str(ex)[:150]}", identz)
+                continue
+            res.case(("out-of-plane", et, simk))
+            res.count("out-of-plane:solved")
+            errz = np.abs(sols_z[1] - sols_z[0]).max() / (1e-30 + np.abs(sols_z[0]).max())
+            if errz > 1e-8:
+                res.fail(f"frame indifference sim={simk} dim=2 move=translation along z", f"the same 2D problem on the mesh translated by 0.75 along z is accepted and its solution differs by {errz:.2e} (relative)", identz)
+
     # ---------------- beams ----------------
     for et in (["SEG2", "SEG3"] if not thorough else ["SEG2", "SEG3", "SEG4"]):
         for timo in (False, True):
-            for bdim, variant in ((2, "rotation"), (3, "rotation"), (2, "rotation, default yAxis"), (2, "reflection"), (3, "reflection")):
+            for bdim, variant in ((2, "rotation"), (3, "rotation"), (2, "rotation, default yAxis"), (2, "reflection"), (3, "reflection"),
+                                  (2, "half turn of a member lying on the x-axis"), (3, "half turn of a member lying on the x-axis"),
+                                  (2, "rotation, one dynamic step"), (3, "rotation, one dynamic step")):
                 L = 4.0
                 sect = Mesher().Mesh_2D(Domain(Point(), Point(0.5, 0.25)))
-                if variant == "reflection":
+                if variant.startswith("half turn"):
+                    Q = np.diag([-1.0, -1.0, 1.0])       # exactly: the moved member runs from the origin towards -x, on the axis
+                elif variant == "reflection":
                     nrm = (rng.randint(1, 3), rng.randint(-3, 3), 0) if bdim == 2 else (rng.randint(1, 3), rng.randint(-3, 3), rng.randint(-3, 3))
                     Q = reflection(nrm)
                 elif bdim == 2:
@@ -206,10 +244,10 @@ def main():
                 else:
                     Q = rodrigues((rng.randint(1, 3), rng.randint(-3, 3), rng.randint(-3, 3)), rng.random() * 5 + 0.3)
                 detQ = float(np.sign(np.linalg.det(Q)))
-                off = np.array([0.5, -0.25, 0.75 if bdim == 3 else 0.0])
+                off = np.array([0.5, -0.25, 0.75 if bdim == 3 else 0.0]) if not variant.startswith("half turn") else np.zeros(3)
                 f = np.array([rng.randint(-4, 4) / 4, rng.randint(1, 4) / 4, rng.randint(-4, 4) / 4 if bdim == 3 else 0.0])
                 mom = np.array([rng.randint(-4, 4) / 8 if bdim == 3 else 0.0, rng.randint(-4, 4) / 8 if bdim == 3 else 0.0, rng.randint(1, 4) / 8])
-                sols = []
+                sols, own = [], []
                 ident = dict(beam=et, timoshenko=timo, dim=bdim, variant=variant, Q=Q.tolist(), force=f.tolist(), moment=mom.tolist())
                 try:
                     for moved in (False, True):
@@ -221,6 +259,9 @@ def main():
                         beams = [Models.Beam.Isotropic(bdim, Line(Point(*pA), Point(*pB), L / 3), sect, 1000.0, 0.25, yAxis)]
                         mesh = Mesher().Mesh_Beams(beams, elemType=ElemType(et))
                         s = Simulations.Beam(mesh, Models.Beam.BeamStructure(beams), useTimoshenko=timo)
+                        if variant.endswith("dynamic step"):
+                            s.rho = 2.0
+                            s.Solver_Set_Hyperbolic_Algorithm(0.125)      # the consistent mass of the inclined member enters the step
                         nA, nB = mesh.Nodes_Point(Point(*pA)), mesh.Nodes_Point(Point(*pB))
                         fq, mq = Qm @ f, dm * (Qm @ mom)          # a moment is a pseudo-vector
                         if bdim == 2:
@@ -234,6 +275,9 @@ def main():
                         u = np.asarray(s.Solve()).reshape(mesh.Nn, -1)
                         order = np.argsort((mesh.coord - pA) @ (Qm @ np.array([1.0, 0, 0])))
                         sols.append(u[order])
+                        # internal forces in the member's own axes, element by element along the member
+                        eorder = np.argsort((mesh.coord[np.asarray(mesh.groupElem.connect)].mean(1) - pA) @ (Qm @ np.array([1.0, 0, 0])))
+                        own.append({nm: np.asarray(s.Result(nm, nodeValues=False)).ravel()[eorder] for nm in (["N", "Ty", "Mz"] if bdim == 2 else ["N", "Mx", "My", "Mz"])})
                 except Exception as ex:  # noqa: BLE001
                     res.fail(f"moved beam raises timo={timo} dim={bdim}", f"{type(ex).__name__}: {str(ex)[:150]}", ident)
                     continue
@@ -278,6 +322,14 @@ def main():
                 err = np.abs(u1 - want).max() / (1e-30 + np.abs(want).max())
                 if err > 1e-7:
                     res.fail(f"beam frame indifference timo={timo} dim={bdim} elem={et} {variant}", f"response of the moved member ({variant}) differs from the transformed response by {err:.2e} (relative)", ident)
+                elif detQ > 0 and not variant.endswith("default yAxis"):
+                    # "the same response in its own axes whatever its inclination": internal forces of the rotated member
+                    # (with the default yAxis the section axes do not turn with the member: its own axes are other ones)
+                    badf = [nm for nm in own[0] if np.abs(own[1][nm] - own[0][nm]).max() > 1e-6 * (1e-30 + max(np.abs(v).max() for v in own[0].values()))]
+                    if badf:
+                        res.fail(f"beam internal forces not frame indifferent timo={timo} dim={bdim} elem={et} {variant}",
+                                 f"internal forces {badf} of the moved member ({variant}) differ from those of the original member in its own axes: "
+                                 f"{badf[0]} = {own[1][badf[0]][:3].tolist()} instead of {own[0][badf[0]][:3].tolist()}", ident)
 
     answers = driver.ask(lines)
     if answers is None:
